@@ -60,7 +60,7 @@ func scenarios(m *mon.M, r *rand.Rand) []scenario {
 		{name: "plain-byte3-mixed-ledgers-shares", blocks: n + 6, lockByte: 3, pref: 0.3, shares: 1},
 		{name: "contract-byte1-quai", blocks: n + 12, lockByte: 1, pref: quaiOnly, contract: true, deployAt: 14},
 		{name: "contract-byte0-mixed-ledgers-shares", blocks: n + 12, lockByte: 0, pref: 0.35, contract: true, deployAt: 12, shares: 1, crafted: true},
-		{name: "contract-byte2-reorg", blocks: n + 12, lockByte: 2, pref: 0.2, contract: true, deployAt: 10, reorgAt: 52},
+		{name: "contract-byte2-shares-reorg", blocks: n + 12, lockByte: 2, pref: 0.2, contract: true, deployAt: 10, shares: 1, crafted: true, reorgAt: 46},
 		{name: "contract-byte3-quai", blocks: n + 16, lockByte: 3, pref: quaiOnly, contract: true, deployAt: 9},
 	}
 	if !m.Thorough() {
@@ -170,6 +170,7 @@ func runScenario(m *mon.M, r *rand.Rand, sc scenario) {
 		return x.observe(mined)
 	}
 	sincePrime := 0
+	reorged := false
 	for i := 0; i < sc.blocks; i++ {
 		if h := n.Heads()[2]; h != nil && x.idx[h.Hash()] != nil && x.idx[h.Hash()].order == 0 {
 			sincePrime = 0
@@ -182,7 +183,10 @@ func runScenario(m *mon.M, r *rand.Rand, sc scenario) {
 			// non-prime blocks the accumulated entropy makes a prime-order seal cheap
 			want = 0
 		}
-		if sc.reorgAt > 0 && i == sc.reorgAt {
+		// the fork point is a prime-order head: the ETXs it releases are then delivered (accumulated, locked)
+		// on the abandoned branch and again on the winning one
+		if sc.reorgAt > 0 && !reorged && (i >= sc.reorgAt && sincePrime == 0 || i >= sc.reorgAt+12) {
+			reorged = true
 			if !ns.reorg(i, step) {
 				return
 			}
@@ -244,24 +248,39 @@ func (ns *netState) reorg(i int, step func(int, hnet.MineOpts) bool) bool {
 	x.linear = false
 	anc := n.Heads()
 	ka := 4 + x.r.Intn(3)
+	c0, a0 := x.creditsSeen, x.accumSeen
 	for k := 0; k < ka; k++ {
 		if !step(i, hnet.MineOpts{WantOrder: 2}) {
 			return false
 		}
 	}
+	creditsA, accumA := x.creditsSeen-c0, x.accumSeen-a0
 	tipA := n.Heads()[2]
 	n.SetTips(anc)
 	if err := n.Settle(); err != nil {
 		x.m.Violation("switch-to-ancestor-failed", err.Error(), map[string]any{"net": x.name})
 		return false
 	}
+	c0, a0 = x.creditsSeen, x.accumSeen
 	for k := 0; k < ka+1; k++ {
 		if !step(i, hnet.MineOpts{WantOrder: 2}) {
 			return false
 		}
 	}
+	creditsB, accumB := x.creditsSeen-c0, x.accumSeen-a0
 	tipB := n.Heads()[2]
-	x.m.Eval(fmt.Sprintf("reorg-across-unlock-heights:depth%d", ka), tipA.Hash().Hex()+tipB.Hash().Hex())
+	if creditsA > 0 && creditsB > 0 {
+		// rewards were credited (exactly, per the ancestry oracle) on the abandoned branch and again on the winning one
+		x.m.Eval("reorg-across-unlock-heights", tipA.Hash().Hex()+tipB.Hash().Hex())
+	}
+	if accumA > 0 && accumB > 0 {
+		// the same rewards were accumulated into contract-held records on both branches (record model == database on each)
+		x.m.Eval("reorg-across-lockup-accumulation", tipA.Hash().Hex()+tipB.Hash().Hex())
+	}
+	if !(creditsA > 0 && creditsB > 0) && !(accumA > 0 && accumB > 0) {
+		x.m.Eval("reorg-without-unlock", tipA.Hash().Hex()+tipB.Hash().Hex())
+	}
+	x.m.AddExtra("reorg_depth_total", int64(ka))
 	return true
 }
 
@@ -269,7 +288,7 @@ func TestC13(t *testing.T) {
 	m := mon.New(t, "C13", "rewards")
 	defer m.Finish()
 	compressRewardSchedule()
-	m.Rule("hnet histories (6 nets quick: plain / contract layouts, lockup bytes 0-3 switched through Core.SetLockupByte, Quai and Qi coinbases, crafted work shares of other miners incl. delegate and malformed layouts, Qi<->Quai conversions, owner-contract deployment and claim scripts, one fork per reorg net). After EVERY executed block (both branches of a fork) an ancestry-based RewardBook is evaluated: " +
+	m.Rule("hnet histories (8 nets quick: plain / contract layout x miner lockup byte 0-3, Quai-only and mixed Quai/Qi coinbases, ground work shares of the miner and crafted shares of other Quai/Qi miners with every lockup byte and layout incl. delegate and malformed, Qi<->Quai conversions, owner-contract deployment and claim scripts, one fork per reorg net). After EVERY executed block (both branches of a fork) an ancestry-based RewardBook is evaluated: " +
 		"(1) coinbase ETXs of block N name only the block N-3 or shares of that height included in N-3..N, pay the share's coinbase with the share's data, Σ ≤ CalculateQuaiReward(target)+AvgTxFees+TotalFees/2 (Qi parts via QuaiToQi), exactly that amount when there are no shares; no share rewarded twice on a chain; " +
 		"(2) no uncle hash twice on a chain, a block repeating an uncle is rejected; " +
 		"(3) every delivered coinbase/claim ETX was emitted by an ancestor and is delivered once per chain; balance delta of silent watched accounts (miner, share miner, conversion recipient, claim recipient) == Σ plain rewards included depth[byte] blocks earlier in the ancestry, adjusted by CalculateCoinbaseValueWithLockup at the crediting height, + conversions included ConversionLockPeriod earlier, − account-creation fee for a new account, + arriving claim ETXs; Qi coinbases: outputs keyed by the ETX hash have Lock = height+depth, owner = miner, Σ ≤ adjusted value; locked outputs never inputs below their lock, never spent twice; " +
@@ -290,5 +309,5 @@ func TestC13(t *testing.T) {
 	m.Need("emission:single-share:quai", "credited:coinbase:byte0:miner", "credited:coinbase:byte1:miner", "credited:coinbase:byte2:miner", "credited:coinbase:byte3:miner",
 		"lockup-record-matches", "credited:qi-to-quai-conversion:new-account:conversion-recipient", "credited:qi-to-quai-conversion:conversion-recipient",
 		"credited:claim-etx:claim-recipient", "claim-refused:latest-epoch", "claim-refused:non-owner", "claim-refused:before-tranche-height", "claim-refused:no-record",
-		"emission:with-shares:all-rewarded", "early-spend-of-locked-output:refused-by-pool", "qi-reward-output-spent:after-lock")
+		"emission:with-shares:all-rewarded", "reorg-across-unlock-heights", "reorg-across-lockup-accumulation", "block-repeating-uncle:same-block", "claim-in-failing-tx", "claim:owner-after-unlock:paid-exact-balance-once", "share-resubmitted-after-inclusion", "early-spend-of-locked-output:refused-by-pool", "qi-reward-output-spent:after-lock")
 }
